@@ -1,19 +1,11 @@
-import LitexModel.Stream.Basic
-import LitexModel.Stream.Num
+import LitexModel.Stream.Open
 import LitexModel.Stream.Status
 open Litex Litex.Driver Litex.Stream
 
-/-- Stream elements: same dispatch as `Driver/C03.lean` (to be replaced by the shared
-    `LitexModel/Stream/Open.lean` dispatcher once it exists), plus `status` (packet.Status). -/
-def openMachine (args : List String) (hin hout : IO.FS.Stream) : Option (IO Bool) :=
+/-- `status` = packet.Status; everything else is the shared stream-element dispatcher (`Stream/Open.lean`). -/
+def openC04 (args : List String) (hin hout : IO.FS.Stream) : Option (IO Bool) :=
   match args with
   | ["status"] => some (serve numStatus hin hout)
-  | ["pipevalid"] => some (serve (numElem (pipeValid zTok)) hin hout)
-  | ["pipeready"] => some (serve (numElem (pipeReady zTok)) hin hout)
-  | ["wire"] => some (serve (numElem (wire (α := Nat))) hin hout)
-  | ["buffer_vr"] => some (serve (numElem (bufferVR zTok)) hin hout)
-  | ["syncfifo", d] => d.toNat?.map fun d => serve (numElem (syncFifo d zTok)) hin hout
-  | ["syncfifo_buffered", d] => d.toNat?.map fun d => serve (numElem (syncFifoBuffered d zTok)) hin hout
-  | _ => none
+  | _ => Litex.Stream.openMachine args hin hout
 
-def main : IO Unit := mainLoop openMachine (fun _ => none)
+def main : IO Unit := mainLoop openC04 (fun _ => none)
